@@ -41,11 +41,108 @@ def specOf (args : List String) (outs : List String) : String :=
     | _, _ => "FAIL:unparsable"
   | _, _ => "FAIL:unparsable"
 
-def machine : Machine Unit Unit where
-  init _ := ()
-  specInit _ := ()
-  op _ args := ((), model args)
-  spec _ args outs := ((), specOf args outs)
+/-! ### end-to-end ops -/
+def parseTimeout (t : String) : Option Nat := if t == "max" then some (10 ^ 30) else t.toNat?
+
+def parseCOp : List String → Option COp
+  | ["ka", b] => some (.ka (b == "1"))
+  | ["req"] => some .req
+  | ["allow"] => some .allow
+  | ["respout"] => some .respOut
+  | ["inb"] => some .inb
+  | ["respin"] => some .respIn
+  | ["drop"] => some .drop
+  | ["ignore"] => some .ignore
+  | ["dropign"] => some .dropIgn
+  | ["adv", d] => d.toNat?.map .adv
+  | ["poll"] => some .poll
+  | _ => none
+
+def showSh : Sh → String
+  | .none => "none" | .asap => "asap" | .later _ => "later"
+
+def showCS (res : String) (c : CS) : String :=
+  s!"{res} sh={showSh c.sh} ni={c.negInW + c.negInR} no={c.negOutW + c.negOutR} rq={c.req} act={if c.negOutW + c.negOutR + c.negInW + c.negInR + c.held == 0 then 0 else 1}"
+
+def isE2E (args : List String) : Bool :=
+  match args with
+  | "compute" :: _ => false
+  | "counter" :: _ => false
+  | _ => true
+
+/-- monitor over the IMPLEMENTATION's outputs: ghost clock, keep-alive answer, handler queue and
+`lastBusy` are derived from the ops and from the counters the implementation reported -/
+structure Mon where
+  timeout : Nat := 0
+  now : Nat := 0
+  ka : Bool := false
+  hq : Nat := 0
+  busyObs : Bool := false
+  lastBusy : Nat := 0
+  gone : Bool := true
+
+def field (pre tok : String) : Option Nat :=
+  match tok.splitOn "=" with
+  | [p, v] => if p == pre then v.toNat? else none
+  | _ => none
+
+def monStep (m : Mon) (args outs : List String) : Mon × String :=
+  match args with
+  | ["new", t, _] =>
+    match parseTimeout t with
+    | some t => ({ timeout := t, gone := false }, if outs == ["-", "sh=none", "ni=0", "no=0", "rq=0", "act=0"] then "ok" else "FAIL:fresh_connection")
+    | none => (m, "FAIL:unparsable")
+  | _ =>
+    if m.gone then (m, if outs == ["gone"] then "ok" else "FAIL:unparsable") else
+    match parseCOp args, outs with
+    | some o, [res, _sh, ni, no, rq, act] =>
+      match field "ni" ni, field "no" no, field "rq" rq, field "act" act with
+      | some ni, some no, some rq, some act =>
+        let m1 : Mon := match o with
+          | .ka b => { m with ka := b }
+          | .req => { m with hq := m.hq + 1 }
+          | .adv d => { m with now := m.now + d }
+          | _ => m
+        let isPoll := match o with | .poll => true | _ => false
+        let closed := res == "closed"
+        let verdict :=
+          if !isPoll then (if res == "-" then "ok" else "FAIL:unparsable")
+          else if !(res == "pending" || res == "closed") then "FAIL:unexpected_poll_result"
+          else if closed && (m1.busyObs || 0 < m1.hq || m1.ka) then "FAIL:closed_while_kept_alive"
+          else if !specClose m1.timeout (m1.busyObs || 0 < m1.hq) m1.ka m1.lastBusy m1.now closed then "FAIL:closed_before_timeout"
+          else "ok"
+        let busy' := 0 < ni + no + rq + act
+        let hq' := if isPoll then 0 else m1.hq
+        let lb := if busy' || 0 < hq' || (isPoll && m1.ka) then m1.now else m1.lastBusy
+        let m2 : Mon := { m1 with hq := hq', busyObs := busy', gone := closed, lastBusy := lb }
+        (m2, verdict)
+      | _, _, _, _ => (m, "FAIL:unparsable")
+    | _, _ => (m, "FAIL:unparsable")
+
+def modelStep (st : Option CS) (args : List String) : Option CS × String :=
+  match args with
+  | ["new", t, mi] =>
+    match parseTimeout t, mi.toNat? with
+    | some t, some mi => let c := cinit t mi; (some c, showCS "-" c)
+    | _, _ => (st, "bad-op")
+  | _ =>
+    match st, parseCOp args with
+    | some c, some o =>
+      if c.closed then (st, "gone") else
+      let r := cstep c o
+      let res := match r.2 with
+        | none => "-"
+        | some .pending => "pending"
+        | some .closed => "closed"
+      (some r.1, showCS res r.1)
+    | none, some _ => (st, "gone")
+    | _, none => (st, "bad-op")
+
+def machine : Machine (Option CS) Mon where
+  init _ := none
+  specInit _ := {}
+  op st args := if isE2E args then modelStep st args else (st, model args)
+  spec m args outs := if isE2E args then monStep m args outs else (m, specOf args outs)
 
 end Driver.C10
 
